@@ -275,6 +275,10 @@ def run(chk: Check, eng: Engine) -> None:
     chk.rule("R15-c", "non-regex literals are printed with repr() and read with eval()", floor=2)
     chk.rule("R15-d", "the reader's grammar has the precedence shape the argument relies on", floor=4)
     chk.not_decided += ["regex quoting branches of Terminal.format_as_spec", "party annotations, generators and constraint text"]
+    chk.rule("R15-e", "no printer (format_as_spec and what it calls) is memoised by a decorator whose key - self by __eq__/__hash__, the arguments - "
+             "leaves out something the printer reads", floor=1)
+    from .common_memo import decorated_memo_rule
+    decorated_memo_rule(chk, eng, "R15-e", [f.fq for f in eng.ix.all_functions if f.name in ("format_as_spec", "_operand_as_spec")], "printed spec text")
 
     # ---- R15-d ---------------------------------------------------------------
     pg = g4.load(eng, "Parser")
@@ -484,6 +488,8 @@ _R = "src/fandango/language/grammar/nodes/repetition.py"
 _A = "src/fandango/language/grammar/nodes/alternative.py"
 _TS = "src/fandango/language/symbols/terminal.py"
 MUTANTS = [
+    M("terminal-printer-memoised-by-value", "src/fandango/language/symbols/terminal.py", "    def format_as_spec(self) -> str:\n        if self.is_regex:\n", "    @lru_cache(maxsize=4096)\n    def format_as_spec(self) -> str:\n        if self.is_regex:\n", "R15-e",
+      more=(("from io import UnsupportedOperation\n", "from functools import lru_cache\nfrom io import UnsupportedOperation\n"),)),
     M("quote-escape-context-free", _TS, "            symbol = re.sub(\n                r\"(\\\\*)'\",\n                lambda m: m.group(1)[: len(m.group(1)) // 2 * 2] + r\"\\x27\",\n                str(self._value),\n            )\n",
       "            symbol = str(self._value).replace(\"'\", r\"\\x27\")\n", "R15-d"),
     M("quote-escape-sees-one-backslash", _TS, "                r\"(\\\\*)'\",\n                lambda m: m.group(1)[: len(m.group(1)) // 2 * 2] + r\"\\x27\",\n",
@@ -497,6 +503,8 @@ MUTANTS = [
     M("literal-str-instead-of-repr", _TS, "        # Not a regex\n        return repr(self._value)", "        # Not a regex\n        return \"'\" + str(self._value) + \"'\"", "R15-c"),
 ]
 TWINS = [
+    M("twin-memoised-type-test", "src/fandango/language/symbols/symbol.py", "    def is_type(self, type_: TreeValueType) -> bool:\n", "    @functools.lru_cache(maxsize=None)\n    def is_type(self, type_: TreeValueType) -> bool:\n", None,
+      more=(("import abc\nimport enum\n", "import abc\nimport enum\nimport functools\n"),)),
     M("twin-quote-pattern-not-raw", _TS, "                r\"(\\\\*)'\",\n", "                \"(\\\\\\\\*)'\",\n", None),
     M("twin-fstring-to-concat", _R, "        return self._operand_as_spec() + \"+\"\n", "        return f\"{self._operand_as_spec()}+\"\n", None),
     M("twin-helper-else", _R, "        if isinstance(self.node, (Concatenation, Repetition)):\n            return f\"({spec})\"\n        return spec", "        if isinstance(self.node, (Concatenation, Repetition)):\n            return f\"({spec})\"\n        else:\n            return spec", None),
